@@ -143,6 +143,16 @@ CHECKS["C14"] = _core("C14", "every / sampled sequence of 2, 3 and 6 container a
                       "(MC_KotoCore.tla: OneEntryPerKey, NoDangling in every configuration, MapKeepsInsertionOrder and "
                       "StoreOnlyGrows on every step)", "DESIGN.md §5 C14",
                       "The machine's store is the abstract heap (DESIGN's Heap.tla is realised as KotoCore's store plus MC_KotoCore).")
+CHECKS["C16"] = _core("C16", "7 hint positions x 21 hint names x 19 values (objects with @type/@base chains included), each predicted and "
+                      "run with enable_type_checks on and off (the machine has a `checks` switch: hints on let/for/argument/return/"
+                      "yield are skipped when off, match and catch patterns keep selecting), plus ordinary programs compiled with "
+                      "checks off (HintsOffEquiv)", "DESIGN.md §5 C16", "")
+CHECKS["C17"] = _core("C17", "the operator/protocol dispatch matrix on objects: arithmetic (left @op, right @r op fallback, "
+                      "koto.unimplemented, compound @op=), comparisons (every subset of the six comparison metakeys, derived "
+                      "!=, <=, >, >=), protocols (@negate, @size, @index, @index_assign, @call, @display, @type, @access, "
+                      "@access_assign, @iterator, @next), the lookup chain own data -> @meta -> @base, own vs with_meta-shared "
+                      "metamaps; every metakey function prints which function ran with which operands", "DESIGN.md §5 C17",
+                      "Host objects defined through the Rust object interface are not covered.")
 CHECKS["C18"] = dict(
     category="model_checking",
     text="Modules.tla specifies import/export/caching as a state machine (cache absent/in-progress/loaded, exports, log). TLC "
@@ -217,7 +227,7 @@ def main():
              "kind_free_text": "TLA+ state machine of one embedding instance; TLC enumerates operation histories that are replayed on koto::Koto"},
             {"name": "blocks", "path": "spec/Blocks.tla", "serves_properties": ["C10"],
              "kind_free_text": "TLA+ model of block-structured text typed line by line; TLC enumerates typed prefixes"},
-            {"name": "kotocore", "path": "spec/KotoCore.tla", "serves_properties": ["C01", "C02", "C03", "C04", "C10", "C12", "C14", "C18"],
+            {"name": "kotocore", "path": "spec/KotoCore.tla", "serves_properties": ["C01", "C02", "C03", "C04", "C10", "C12", "C14", "C16", "C17", "C18"],
              "kind_free_text": "TLA+ abstract machine of the Koto language executed by TLC; predictions replayed into the implementation by harness/kv"},
         ],
         "checks": checks,
